@@ -278,14 +278,10 @@ Section Accept.
     destruct (assemble_args_plain (i_args i) (gd_plain i Hi)) as (parts & ->). eexists. reflexivity.
   Qed.
 
-  Lemma resolve_prefix_id (f1 f2 : arg -> arg) ops :
-    (forall a, plain_arg a = true -> f1 a = a) -> (forall a, plain_arg a = true -> f2 a = a) ->
-    Forall gd ops ->
-    map (fun c => match c with COp i => COp (rewrite_instr f2 i) | other => other end)
-        (map (fun c => match c with COp i => COp (rewrite_instr f1 i) | other => other end) (map COp ops)) = map COp ops.
+  Lemma map_COp_id (F : comp -> comp) ops :
+    (forall i, gd i -> F (COp i) = COp i) -> Forall gd ops -> map F (map COp ops) = map COp ops.
   Proof.
-    intros F1 F2. induction 1 as [|i t Hi Ht IH]; cbn [map]; [reflexivity|].
-    rewrite (plain_rewrite f1 i F1 (gd_plain i Hi)), (plain_rewrite f2 i F2 (gd_plain i Hi)), IH. reflexivity.
+    intros HF. induction 1 as [|i t Hi Ht IH]; cbn [map]; [reflexivity|]. rewrite (HF i Hi), IH. reflexivity.
   Qed.
 
   (* ---- the whole pipeline ---- *)
@@ -315,16 +311,19 @@ Section Accept.
     rewrite EA. cbn [fold_right cr_graph cr_start cr_end cr_sub].
     rewrite (sort_one g2 ops H2). rewrite (flatten_one_block g2 ops H2).
     (* spill: only the main routine *)
-    unfold spill. cbn [flat_map fr_sub app existsb map].
+    unfold spill. cbn [flat_map fr_sub app existsb map orb].
     (* flattenSubroutines *)
     unfold flatten_subroutines. cbn [flat_map fr_sub fr_ops app sort_dedup fold_right].
     rewrite !app_nil_r.
     unfold prefix_labels.
-    rewrite (resolve_prefix_id _ _ ops); [| | |exact (proj2 H2)].
-    - rewrite (verify_ok ops (proj2 H2)).
-      destruct (assemble_ok ops (proj2 H2)) as (lines & EL).
-      cbn [assemble_all assemble_comp]. rewrite EL. eexists. reflexivity.
-    - intros [n|s|s|s|s]; cbn; intros X; (reflexivity || discriminate).
-    - intros [n|s|s|s|s]; cbn; intros X; (reflexivity || discriminate).
+    rewrite (map_COp_id _ ops); [| |exact (proj2 H2)].
+    2: { intros i Gi. rewrite plain_rewrite; [reflexivity| |exact (gd_plain i Gi)].
+         intros [n|s|s|s|s]; cbn; intros X; (reflexivity || discriminate). }
+    rewrite (map_COp_id _ ops); [| |exact (proj2 H2)].
+    2: { intros i Gi. rewrite plain_rewrite; [reflexivity| |exact (gd_plain i Gi)].
+         intros [n|s|s|s|s]; cbn; intros X; (reflexivity || discriminate). }
+    rewrite (verify_ok ops (proj2 H2)).
+    destruct (assemble_ok ops (proj2 H2)) as (lines & EL).
+    cbn [assemble_all assemble_comp]. rewrite EL. eexists. reflexivity.
   Qed.
 End Accept.
